@@ -29,6 +29,9 @@ pub struct PeerSpec {
     /// answers to requests the client cancels are already in flight and arrive anyway
     #[serde(default)]
     pub late_blocks: bool,
+    /// the peer answers the newest outstanding request first (BEP3 does not promise answers in request order)
+    #[serde(default)]
+    pub newest_first: bool,
 }
 
 #[derive(Clone, Debug, Serialize, Deserialize)]
@@ -92,8 +95,8 @@ fn geo_strategy(tier: Tier) -> BoxedStrategy<Geometry> {
 }
 
 fn strategy(tier: Tier) -> BoxedStrategy<Case> {
-    let peer = (any::<u64>(), prop::bool::weighted(0.5), prop_oneof![Just(0u8), any::<u8>()], 0u8..60, any::<bool>(), prop::bool::weighted(0.4), prop::bool::weighted(0.5))
-        .prop_map(|(pieces_seed, essential, via_have, unchoke_delay_s, outgoing, interested, late_blocks)| PeerSpec { pieces_seed, essential, via_have, unchoke_delay_s, outgoing, interested, late_blocks });
+    let peer = (any::<u64>(), prop::bool::weighted(0.5), prop_oneof![Just(0u8), any::<u8>()], 0u8..60, any::<bool>(), prop::bool::weighted(0.4), prop::bool::weighted(0.5), prop::bool::weighted(0.3))
+        .prop_map(|(pieces_seed, essential, via_have, unchoke_delay_s, outgoing, interested, late_blocks, newest_first)| PeerSpec { pieces_seed, essential, via_have, unchoke_delay_s, outgoing, interested, late_blocks, newest_first });
     let act = prop_oneof![
         8 => (1u8..4).prop_map(Act::Serve),
         1 => (30u8..70).prop_map(Act::Serve),
@@ -114,7 +117,7 @@ fn strategy(tier: Tier) -> BoxedStrategy<Case> {
                 // delivers dozens of pieces (more completions than any internal queue holds), then it runs again
                 let n = 40 + (seed >> 8) as usize % 50;
                 let geo = Geometry::single(1, n, seed);
-                let mk = |s: u64| PeerSpec { pieces_seed: s, essential: true, via_have: 0, unchoke_delay_s: 0, outgoing: s % 2 == 0, interested: false, late_blocks: false };
+                let mk = |s: u64| PeerSpec { pieces_seed: s, essential: true, via_have: 0, unchoke_delay_s: 0, outgoing: s % 2 == 0, interested: false, late_blocks: false, newest_first: false };
                 let peers = vec![mk(seed | 1), mk(seed >> 3)];
                 let mut pre: Vec<(u16, Act)> = vec![(65535, Act::Stall(6)), (0, Act::Unchoke), (0, Act::Serve(69)), (0, Act::Serve(69)), (0, Act::Serve(69)), (0, Act::Idle(1))];
                 pre.extend(script);
@@ -265,7 +268,8 @@ pub fn check(c: &Case) -> Outcome {
                         peer.view.outstanding.clear();
                         break;
                     }
-                    let next = match peer.view.outstanding.pop_front() {
+                    let first = if h.spec.newest_first { peer.view.outstanding.pop_back() } else { peer.view.outstanding.pop_front() };
+                    let next = match first {
                         Some(r) => Some(r),
                         None if h.spec.late_blocks => peer.view.cancelled_pending.pop_front(),
                         None => None,
@@ -551,6 +555,7 @@ pub fn check(c: &Case) -> Outcome {
                 o.class(cl);
             }
             o.class_if(c.geo.multi, "multi-file");
+            o.class_if(c.peers.iter().any(|p| p.newest_first) && c.geo.piece_len > 16384, "answers-out-of-request-order");
             o.class_if(c.geo.files.iter().any(|f| f.1 == 0), "zero-length-file");
             o.class_if(elapsed > Duration::from_secs(360), "took-longer-than-6-virtual-minutes");
             for (s, d) in fails {
